@@ -24,6 +24,9 @@ pub fn shown_errors(r: &ExecResult) -> Vec<oracle::ErrMsg> {
         // the log line that explains a fatal (`Failed to parse system ID: Unknown system ID 254`, followed by
         // `FATAL: Failed to parse system ID`) is part of that fatal as well
         .filter(|m| !fatal_texts.iter().any(|f| !f.is_empty() && m.text.starts_with(&format!("{f}:"))))
+        // (two threads can raise that fatal - `FATAL: Failed to parse system ID` or `FATAL: Unknown system ID n` -
+        // whichever comes first is shown; the explaining log line is the same)
+        .filter(|m| !m.text.starts_with("Failed to parse system ID"))
         .map(|m| oracle::parse_err_text(&m.text))
         .collect()
 }
@@ -147,8 +150,15 @@ pub fn run_exit_contract(
                     Some(n) => vec![n],
                     None => vec![0, 1],
                 }
+            } else if !shown.is_empty() {
+                // no fatal, but errors were reported (a view logs unknown word IDs and payload errors, the
+                // reader [E100]/[E101]): N like any other reported error
+                match n {
+                    Some(n) => vec![n],
+                    None => vec![0],
+                }
             } else {
-                // the writer with a filter may never reach the broken packet's successor: no fatal, exit 0
+                // the writer with a filter may never reach the broken packet's successor: nothing reported
                 vec![0]
             };
             if !want.contains(&r.status) {
